@@ -13,6 +13,13 @@
 //!     qfull    queue of size 1: request 1 in flight, request 2 queued, request 3 rejected; then destroy
 //!     badparam <extra> = null | zero | overflow | limit | nullitems | toomany | empty
 //!     states   client state listener until Connected, then destroy
+//!     gate     <extra> = enable | disable: queue of ONE; a completion callback PARKS the channel task, a second request fills the
+//!              queue, enable (disable) is then rejected with TooManyRequests; the callback is released and the call is repeated.
+//!              enable: channel never enabled, a listening peer; disable: connected channel, silent peer.
+//!              output: ffi:<rc of request 2>/<rc of the rejected call>/<rc of the repeated call>/<1 if the listener then saw Connected (Disabled), else 0> rust:n/a
+//!     notify   op = rh (ignored), <extra> = rtu | tcp, <n> = number of notifications to collect after enable:
+//!              rtu: a serial path that does not exist (every open fails), tcp: a refused port; small retry delays.
+//!              output: ffi:Ok/<first n states the C listener got, joined by '>'> rust:<the same for the Rust API listener>
 //!     reuse    op = wmc | wmr, <extra> = <k> or <k>+a: ONE rodbus_bit_list / rodbus_register_list object with n values is
 //!              passed to k successive write-multiple calls (each awaited); with +a one more value is added to the object
 //!              between two calls. The Rust API twin issues the same k calls with freshly built vectors.
@@ -550,6 +557,162 @@ fn scenario(rt: &tokio::runtime::Runtime, ffi_rt: &FfiRuntime, line: &str) -> St
             let e1 = slot_events(s1, Duration::from_secs(10));
             let e2 = slot_events(s2, Duration::from_secs(10));
             format!("ffi:{rc1}/{e1};{rc2}/{e2};{rc3}/{e3};pending-before-destroy={pending} rust:n/a")
+        }
+        "gate" => {
+            #[derive(Default)]
+            struct Gate {
+                entered: bool,
+                release: bool,
+                events: Vec<String>,
+            }
+            extern "C" fn gate_failure(err: c_int, ctx: *mut c_void) {
+                let g = unsafe { ctx_ref::<Gate>(ctx) };
+                {
+                    let mut s = g.lock().unwrap();
+                    s.entered = true;
+                    s.events.push(format!("{err}"));
+                }
+                let t0 = Instant::now();
+                while !g.lock().unwrap().release && t0.elapsed() < Duration::from_secs(15) {
+                    std::thread::sleep(Duration::from_millis(2));
+                }
+            }
+            extern "C" fn gate_regs(_it: *mut rodbus_ffi::RegisterValueIterator, ctx: *mut c_void) {
+                unsafe { ctx_ref::<Gate>(ctx) }.lock().unwrap().entered = true;
+            }
+            let disable = extra == "disable";
+            let peer = start_peer(rt);
+            let (fstates, sctx) = leak_ctx(States::default());
+            let host = cstr("127.0.0.1");
+            let mut ch: *mut rodbus_ffi::ClientChannel = std::ptr::null_mut();
+            let rc = unsafe {
+                ffi::rodbus_client_channel_create_tcp(
+                    ffi_rt.0,
+                    host.as_ptr(),
+                    peer.port,
+                    1,
+                    ffi::RetryStrategy { min_delay: 50, max_delay: 50 },
+                    decode_nothing(),
+                    ffi::ClientStateListener { on_change: Some(on_state), on_destroy: Some(noop_destroy), ctx: sctx },
+                    &mut ch,
+                )
+            };
+            if rc != 0 {
+                return "FAIL:create".into();
+            }
+            let seen = |name: &str| fstates.lock().unwrap().seq.iter().any(|s| s == name);
+            if disable {
+                unsafe { ffi::rodbus_client_channel_enable(ch) };
+                if !wait_until(Duration::from_secs(10), || seen("Connected")) {
+                    return "FAIL:never connected".into();
+                }
+            }
+            let (gate, gctx) = leak_ctx(Gate::default());
+            // request 1: fails (NoConnection while disabled / ResponseTimeout from the silent peer, start 1000) and parks the task in its callback
+            let rc1 = unsafe {
+                ffi::rodbus_client_channel_read_holding_registers(
+                    ch,
+                    ffi::RequestParam { unit_id: 1, timeout: 200 },
+                    ffi::AddressRange { start: 1000, count: 1 },
+                    ffi::RegisterReadCallback { on_complete: Some(gate_regs), on_failure: Some(gate_failure), on_destroy: Some(noop_destroy), ctx: gctx },
+                )
+            };
+            if rc1 != 0 || !wait_until(Duration::from_secs(10), || gate.lock().unwrap().entered) {
+                gate.lock().unwrap().release = true;
+                return "FAIL:gate".into();
+            }
+            let (rc2, _slot2) = unsafe { ffi_request(ch, "rh", 1000, 1, 200, false) };
+            let call = |ch| unsafe { if disable { ffi::rodbus_client_channel_disable(ch) } else { ffi::rodbus_client_channel_enable(ch) } };
+            let first = param_error_name(call(ch));
+            gate.lock().unwrap().release = true;
+            // repeat until it is no longer rejected for a full queue (the task drains the queue now)
+            let mut second = String::new();
+            for _ in 0..200 {
+                second = param_error_name(call(ch));
+                if second != "TooManyRequests" {
+                    break;
+                }
+                std::thread::sleep(Duration::from_millis(10));
+            }
+            let reached = wait_until(Duration::from_secs(3), || if disable { fstates.lock().unwrap().seq.iter().skip_while(|s| *s != "Connected").any(|s| s == "Disabled") } else { seen("Connected") });
+            unsafe { ffi::rodbus_client_channel_destroy(ch) };
+            format!("ffi:{rc2}/{first}/{second}/{} rust:n/a", reached as u8)
+        }
+        "notify" => {
+            let want = n as usize;
+            extern "C" fn on_port(state: c_int, ctx: *mut c_void) {
+                let name = std::panic::catch_unwind(|| format!("{:?}", ffi::PortState::from(state))).unwrap_or_else(|_| format!("#{state}"));
+                unsafe { ctx_ref::<States>(ctx) }.lock().unwrap().seq.push(name);
+            }
+            struct RustPort(Arc<Mutex<Vec<String>>>);
+            impl Listener<PortState> for RustPort {
+                fn update(&mut self, value: PortState) -> MaybeAsync<()> {
+                    let name = format!("{value:?}");
+                    self.0.lock().unwrap().push(name.split('(').next().unwrap().to_string());
+                    MaybeAsync::ready(())
+                }
+            }
+            let closed = ClosedPort::new();
+            let path = "/dev/verif-no-such-serial-port";
+            let (fstates, sctx) = leak_ctx(States::default());
+            let mut ch: *mut rodbus_ffi::ClientChannel = std::ptr::null_mut();
+            let retry = ffi::RetryStrategy { min_delay: 20, max_delay: 40 };
+            let rc = unsafe {
+                if extra == "rtu" {
+                    let cpath = cstr(path);
+                    ffi::rodbus_client_channel_create_rtu(
+                        ffi_rt.0,
+                        cpath.as_ptr(),
+                        ffi::SerialPortSettingsFields {
+                            baud_rate: 9600,
+                            data_bits: ffi::DataBits::Eight,
+                            flow_control: ffi::FlowControl::None,
+                            parity: ffi::Parity::None,
+                            stop_bits: ffi::StopBits::One,
+                        }
+                        .into(),
+                        4,
+                        retry,
+                        decode_nothing(),
+                        ffi::PortStateListener { on_change: Some(on_port), on_destroy: Some(noop_destroy), ctx: sctx },
+                        &mut ch,
+                    )
+                } else {
+                    let host = cstr("127.0.0.1");
+                    ffi::rodbus_client_channel_create_tcp(
+                        ffi_rt.0,
+                        host.as_ptr(),
+                        closed.port,
+                        4,
+                        retry,
+                        decode_nothing(),
+                        ffi::ClientStateListener { on_change: Some(on_state), on_destroy: Some(noop_destroy), ctx: sctx },
+                        &mut ch,
+                    )
+                }
+            };
+            if rc != 0 {
+                return format!("ffi:{}/- rust:-", param_error_name(rc));
+            }
+            unsafe { ffi::rodbus_client_channel_enable(ch) };
+            wait_until(Duration::from_secs(3), || fstates.lock().unwrap().seq.len() >= want);
+            let f: Vec<String> = fstates.lock().unwrap().seq.iter().take(want).cloned().collect();
+            unsafe { ffi::rodbus_client_channel_destroy(ch) };
+            let rstates = Arc::new(Mutex::new(Vec::new()));
+            let rch = {
+                let _g = rt.enter();
+                let retry = rodbus::doubling_retry_strategy(Duration::from_millis(20), Duration::from_millis(40));
+                if extra == "rtu" {
+                    spawn_rtu_client_task(path, SerialSettings::default(), 4, retry, DecodeLevel::nothing(), Some(Box::new(RustPort(rstates.clone()))))
+                } else {
+                    spawn_tcp_client_task(HostAddr::ip(IpAddr::from([127, 0, 0, 1]), closed.port), 4, retry, DecodeLevel::nothing(), Some(Box::new(RustStates(rstates.clone()))))
+                }
+            };
+            let _ = rt.block_on(rch.enable());
+            wait_until(Duration::from_secs(3), || rstates.lock().unwrap().len() >= want);
+            let r: Vec<String> = rstates.lock().unwrap().iter().take(want).cloned().collect();
+            drop(rch);
+            format!("ffi:Ok/{} rust:{}", f.join(">"), r.join(">"))
         }
         "reuse" => {
             let (k, add) = match extra.split_once('+') {
